@@ -141,7 +141,12 @@ def mask_grid_data_array(mask: xarray.Dataset, data_array: xarray.DataArray) -> 
             logger.debug(
                 "Masking data array %r with mask %r",
                 data_array.name, mask_name)
-            new_data_array = cast(xarray.DataArray, data_array.where(mask_data_array, other=fill_value))
+            # The mask can carry coordinate variables of its own,
+            # CFGrid.make_clip_mask() copies the latitude and longitude variables.
+            # The data array being masked might be one of those variables,
+            # so only the mask values are used.
+            mask_values = mask_data_array.reset_coords(drop=True)
+            new_data_array = cast(xarray.DataArray, data_array.where(mask_values, other=fill_value))
             new_data_array.attrs = data_array.attrs
             new_data_array.encoding = data_array.encoding
             return new_data_array
